@@ -71,6 +71,31 @@ def check_case(ctx, case):
     rd_out = sorted((f.ftype, f.qual, reading(f.parts, n)) for f in cout.feats if reading(f.parts, n) is not None)
     if rd_in != rd_out:
         ctx.fail("after >> {} some stranded feature no longer reads the same nucleotides in the same order".format(k), case)
+    # bibliography entries with a base range are annotations like any other: carried over as they are, and computing a
+    # rotation leaves the record it was computed from alone
+    if n >= 2 and case.get("m") == 1:
+        r4 = impl.mk_record(CRec(3, wd, feats, [108, 109, 113]))
+
+        def bib(rec_):
+            return [(impl.ref_id(x), str(x.location)) for x in rec_.annotations.get("references", [])]
+        b0 = bib(r4)
+        o4 = r4 >> k
+        o4b = r4 >> k
+        if bib(r4) != b0:
+            ctx.fail("computing record >> {} changes the reference list of the record itself: {} -> {}".format(k, b0, bib(r4)), case)
+        elif bib(o4) != b0 or bib(o4b) != b0:
+            ctx.fail("the reference list is not carried over unchanged by >> {}: {} -> {}".format(k, b0, bib(o4b)), case)
+        # augmented assignment is the same operation
+        r5 = impl.mk_record(CRec(3, wd, feats, []), track=track)
+        r5 >>= k
+        if str(r5.seq) != str(out.seq) or r5.letter_annotations.get("track") != out.letter_annotations.get("track") or \
+                denot(impl.canon_record(r5).feats, n) != denot(cout.feats, n):
+            ctx.fail("record >>= {} differs from record >> {} (sequence, per-letter track or features)".format(k, k), case)
+        r6 = impl.mk_record(CRec(3, wd, feats, []), track=track)
+        r6 <<= k
+        o6 = impl.mk_record(CRec(3, wd, feats, []), track=track) << k
+        if str(r6.seq) != str(o6.seq) or r6.letter_annotations.get("track") != o6.letter_annotations.get("track"):
+            ctx.fail("record <<= {} differs from record << {}".format(k, k), case)
     # a feature without a location (what the parser leaves for a location it cannot read) stays without one, in place
     if n >= 2 and case.get("m") == 1 and len(rec.features) >= 1:
         from Bio.SeqFeature import SeqFeature
